@@ -28,6 +28,8 @@ Definition L_ignored : str := [105;103;110;111;114;101;100].       (* 'ignored' 
 Definition L_prev1 : str :=       (* "  [Previous line repeated " *)
   [32;32;91;80;114;101;118;105;111;117;115;32;108;105;110;101;32;114;101;112;101;97;116;101;100;32].
 Definition L_prev2 : str := [32;109;111;114;101;32;116;105;109;101].      (* " more time" *)
+Definition L_prevline : str :=    (* "[Previous line repeated " *)
+  [91;80;114;101;118;105;111;117;115;32;108;105;110;101;32;114;101;112;101;97;116;101;100;32].
 
 Example literals_spelled :
   L_header = s2l "Traceback (most recent call last):"%string /\ L_file2 = s2l "  File """%string /\
@@ -113,7 +115,8 @@ Record cc_ok (C : cc) : Prop := mkCCok {
   br_sp : forall c, is_br C c = true -> is_sp C c = true;         (* every line boundary is white space *)
   dg_ascii : forall c, 48 <= c <= 57 -> is_dg C c = true;         (* 0-9 are decimal digits *)
   dg_low : forall c, c < 48 -> is_dg C c = false;                 (* nothing below '0' is *)
-  dg_br : forall c, is_dg C c = true -> is_br C c = false         (* no digit is a line boundary *)
+  dg_br : forall c, is_dg C c = true -> is_br C c = false;        (* no digit is a line boundary *)
+  dg_val_ascii : forall c, 48 <= c <= 57 -> dg_val C c = c - 48   (* int('7') = 7 *)
 }.
 
 (* ---- well-formedness: when does the text determine the structure ----------------- *)
@@ -140,9 +143,10 @@ Section WF.
     | None => false
     end.
   (* a source line is what the interpreter prints: stripped, one line, and not
-     itself of the shape [File DQ...] (it would be read as the next entry) *)
+     itself of the shape [File DQ...] (it would be read as the next entry) nor of the shape
+     of the interpreter's folding line *)
   Definition src_ok (s : str) : bool :=
-    is_nil s || (stripped s && no_break C s && negb (startswith L_file s)).
+    is_nil s || (stripped s && no_break C s && negb (startswith L_file s) && negb (startswith L_prevline s)).
   Definition frame_ok (f : frame) : bool :=
     path_ok (f_path f) && lineno_ok (f_lineno f) && func_ok (f_func f) && src_ok (f_src f).
 
@@ -155,6 +159,17 @@ Section WF.
     forallb (fun c => negb (is_br C c) || (c =? 10)) m &&
     match rev m with [] => true | c :: _ => negb (c =? 10) end &&
     negb (ignored_line (last (split_nl (exc_text ty m)) [])).
+
+  (* entries at the same place (file, line, function) show the same source text -- what
+     linecache guarantees at any one moment; needed to read folded entries back *)
+  Fixpoint src_consistent (fs : list frame) : bool :=
+    match fs with
+    | [] => true
+    | a :: r => match r with
+                | [] => true
+                | b :: _ => (negb (same_place a b) || str_eqb (f_src a) (f_src b)) && src_consistent r
+                end
+    end.
 
   Definition wf (T : tb) : bool :=
     forallb frame_ok (t_frames T) && type_ok (t_type T) && msg_ok (t_type T) (t_msg T).
